@@ -43,6 +43,8 @@ FAULTS = {
     "undefined-symbol-definition": ["k_bad = undef_zz + 1"],
     "undefined-macro": ["m_undefined(1)"],
     "too-few-macro-arguments": [".macro m_flt(p_fa, p_fb) {", ".db p_fa, p_fb", "}", "m_flt(1)"],
+    "too-few-macro-arguments-unused-parameter": [".macro m_flt2(p_fc, p_fd) {", ".db p_fc", "}", "m_flt2(1)"],
+    "no-macro-argument-unused-parameter": [".macro m_flt4(p_fe) {", "nop", "}", "m_flt4()"],
     "undefined-addressing-mode": ["nop #0"],
     "undefined-width-rep": ["rep.w #1"],
     "undefined-width-lda": ["lda.l #1"],
